@@ -21,7 +21,7 @@ func (e *Env) tableImmutability(rule string) {
 		}
 		n++
 		fe := ef.Funcs[fn]
-		for _, w := range fe.Direct {
+		for _, w := range fe.Writes {
 			if w.Root.Kind != facts.RGlobal {
 				continue
 			}
